@@ -125,13 +125,40 @@ def verdict_sources(ctx, rule, only_ellipsis=False):
                         return 'wildcard match under ELLIPSIS'
                 return None
             if v is None or (isinstance(v, ast.Constant) and not v.value):
+                if q == CM:
+                    # a mismatch may only be declared once every documented way to match was tried: the texts differ AND
+                    # (ELLIPSIS is off OR the wildcard matcher said no)
+                    differ = any(fa.polarity is False and _eq_of(fa.expr, pg, pw) for fa in facts)
+                    ell_off = any(canon_fact(fa) == ('key', 'ELLIPSIS', False) for fa in facts)
+                    em_no = any(fa.polarity is False and isinstance(fa.expr, ast.Call) and _resolves(ctx, f, fa.expr, EM) for fa in facts)
+                    # the plain fall-through `return False` after `if ELLIPSIS: if match: return True` carries no fact about the flag: accept it when
+                    # no ELLIPSIS-true fact dominates it (then it is reached on both flag values only through failed attempts)
+                    under_ell = any(canon_fact(fa) == ('key', 'ELLIPSIS', True) for fa in facts)
+                    ok_neg = differ and (ell_off or em_no or not under_ell)
+                    if not ok_neg:
+                        # an early rejection on a side condition may be a sound shortcut or a wrong one: that is a value-level question
+                        raise AnalysisError('%s: under ELLIPSIS `%s` declares a mismatch on a side condition (%s) before the wildcard matcher was consulted; '
+                                            'whether that shortcut is sound cannot be decided structurally' % (rule, ctx.src(rn.ast), fmt_facts(facts)))
+                    rep.ob(rule, ctx.loc(f, rn.ast), 'return False | %s' % fmt_facts(facts), True,
+                           'a mismatch is declared only after equality and (under ELLIPSIS) the wildcard matcher failed', anchor=q)
+                continue
+            if isinstance(v, ast.Call) and q == CM and _resolves(ctx, f, v, EM):
+                ok_em = any(canon_fact(fa) == ('key', 'ELLIPSIS', True) for fa in facts)
+                rep.ob(rule, ctx.loc(f, rn.ast), ctx.src(rn.ast) + ' | %s' % fmt_facts(facts), ok_em,
+                       'the verdict of the wildcard matcher, under ELLIPSIS' if ok_em else 'the wildcard matcher decides although ELLIPSIS is not known to be on', anchor=q)
                 continue
             if isinstance(v, ast.Constant) and v.value is True:
                 why = allowed_true()
+                if why is None:
+                    mentions_marker = any(isinstance(x, ast.Name) and x.id == 'ELLIPSIS_MARKER' or (isinstance(x, ast.Constant) and x.value == '...')
+                                          for fa in facts if isinstance(fa.expr, ast.AST) for x in ast.walk(fa.expr))
+                    flag_on = any(canon_fact(fa) == ('key', 'ELLIPSIS', True) for fa in facts)
+                    if not (mentions_marker and not flag_on):
+                        # some other shortcut: whether it is sound is a value-level question
+                        raise AnalysisError('%s: `return True` in %s under %s is none of the documented ways to match; whether this shortcut is sound cannot be decided structurally' % (rule, q, fmt_facts(facts)))
                 rep.ob(rule, ctx.loc(f, rn.ast), 'return True | %s' % fmt_facts(facts), why is not None,
                        'positive verdict through a documented way: %s' % why if why else
-                       'a match is declared under a condition that is none of the documented ones (equal texts, empty want, wildcard match under ELLIPSIS): '
-                       'this verdict does not depend on the flags that are supposed to control it', anchor=q)
+                       "a match is declared because of the ellipsis marker without consulting the ELLIPSIS flag: with ELLIPSIS disabled '...' must have no special meaning", anchor=q)
                 continue
             if isinstance(v, ast.Call) and q == CO and _resolves(ctx, f, v, CM):
                 srcs = []
